@@ -129,6 +129,13 @@ def _recipe(name):
             (("t", "u"), (3, 3), G),
             (("u", "s", "b"), (3, 3, 2), G),
         ], None
+    if name == "outer-structured":  # structured tensors whose structured axis is an OUTER label
+        return [
+            (("a", "x"), (2, 2), "antidiag"),
+            (("x", "y", "z", "b"), (2, 2, 2, 2), G),
+            (("c", "y"), (2, 2), "diag"),
+            (("z", "d"), (2, 2), "onehot-column"),
+        ], None
     if name == "multibond-diag":  # diagonal across a multibond: diagonal_reduce leaves a repeated label
         return [(("x", "y", "a"), (2, 2, 2), "diag"), (("x", "y", "b", "z"), (2, 2, 2, 2), G), (("z", "c"), (2, 2), G)], None
     if name == "mixed-dtype":  # real and complex tensors in one network
@@ -141,7 +148,7 @@ def _recipe(name):
 RECIPE_NAMES = (
     "chain3", "tri", "chain-diag", "chain-antidiag", "chain-column", "chain-rank1", "chain-identity", "loop-diag", "copy",
     "hyper3", "hyper3-out", "hyper4", "hyper-diag", "outbond", "outbond-diag", "multibond", "multibond-loop", "oversized",
-    "scalar", "size1", "closed", "two-comp", "hint", "ring4-lowrank", "two-loops", "mps4", "multibond-diag", "mixed-dtype",
+    "scalar", "size1", "closed", "two-comp", "hint", "ring4-lowrank", "two-loops", "mps4", "multibond-diag", "mixed-dtype", "outer-structured",
 )
 
 
@@ -710,8 +717,10 @@ def apply(w, e):
             obs["orig_err"] = ref.relerr(dense_value(tn, w.out, w.gauges), w.ref)
         except Exception as ex:
             obs["orig_err"] = "%s: %s" % (type(ex).__name__, ex)
-        obs["returned"] = type(new).__name__
-        w.tn = new
+        if isinstance(new, qtn.TensorNetwork) and new is not tn:
+            w.tn = new
+        else:
+            obs["returned_bad"] = "the network itself" if new is tn else type(new).__name__
     else:
         r = getattr(tn, name + "_")(*args, **kw)
         obs["returned_self"] = r is tn
@@ -754,8 +763,20 @@ def snapshot(w, e):
         "ni": len(f.lab),
     }
     # structural facts of the pre-state that are root causes in their own right
-    if any(len(set(t.inds)) < len(t.inds) for t in tn.tensor_map.values()):
+    if _has_repeat(tn):
         pre["root"] = "repeated-label"  # only diagonal_reduce produces these here
+    elif e[0] in ("diagonal_reduce", "full_simplify", "compress_simplify") and "D" in dict(e[2]).get("seq", "D"):
+        # classification only: would a diagonal pass leave a repeated label on a multibond partner?
+        try:
+            t2 = tn.copy()
+            for _ in range(4):  # full_simplify repeats its passes
+                t2.antidiag_gauge_(output_inds=w.out)
+                t2.diagonal_reduce_(output_inds=w.out)
+                if _has_repeat(t2):
+                    pre["root"] = "repeated-label"
+                    break
+        except Exception:
+            pass
     if e[0] == "balance_bonds" and f.multibond:
         pre["root"] = "multibond"
     if len(e) > 1 and len(e[1]) == 2 and all(isinstance(x, str) for x in e[1]):
@@ -766,6 +787,10 @@ def snapshot(w, e):
         except Exception:
             pass
     return pre
+
+
+def _has_repeat(tn):
+    return any(len(set(t.inds)) < len(t.inds) for t in tn.tensor_map.values())
 
 
 def generic_check(w):
@@ -924,8 +949,8 @@ def promise_check(w, e, obs, pre):
         err = obs["orig_err"]
         if isinstance(err, str) or not err <= w.tol:
             out.append(("plain-spelling-changed-original", "the network the plain spelling was called on changed value: rel err %s" % err))
-        if obs.get("returned") is None:
-            out.append(("plain-spelling-returned-none", "plain spelling returned None"))
+    if "returned_bad" in obs:
+        out.append(("plain-spelling-return", "plain spelling returned %s instead of a new network" % obs["returned_bad"]))
     if obs.get("returned_self") is False:
         out.append(("inplace-returned-other", "in-place spelling did not return the network itself"))
     return out
@@ -1189,7 +1214,8 @@ def pair_cell(cell, common):
     bi = kw.get("bond_ind")
     # structural root causes visible in the CASE (not in the failure)
     root = "name-for-existing-single-bond" if isinstance(bi, str) and len(shared) == 1 and bi != shared[0] else None
-    sig = dict(entry=fn, root=root, opt=",".join("%s=%s" % (k, v) for k, v in cell["opts"] if k not in ("cutoff",)) or None)
+    # (the full option tuple is in the message; the signature keeps the entry point, the gauge mode and the root)
+    sig = dict(entry=fn, root=root, gauges=gmode, prec="single" if _single(dtype) else "double")
 
     def P(kind, msg):
         return table.bad(core.problem("%s(%s, %s, %r): %s" % (fn, struct, dtype, cell["opts"], msg), kind=kind, **sig))
@@ -1426,7 +1452,7 @@ def run(ctx):
     d_override = ctx.opts.get("depth")
     if thorough:
         rec2 = [(r, dt, ex) for r in RECIPE_NAMES for dt, ex in (("float64", 1.5), ("complex128", 0.0))]
-        rec3 = ["chain3", "tri", "chain-diag", "loop-diag", "copy", "hyper-diag", "outbond-diag", "multibond", "size1", "oversized"]
+        rec3 = ["chain3", "tri", "chain-diag", "loop-diag", "copy", "hyper-diag", "outbond-diag", "multibond", "size1", "oversized", "multibond-diag", "outer-structured"]
         for r, dt, ex in rec2:
             plan.append(({"net": r, "dtype": dt, "expo": ex, "rich": 2 if r in ("loop-diag", "hyper-diag", "copy") and dt == "float64" else 1}, 2, 1))
         for r in rec3:
@@ -1443,7 +1469,7 @@ def run(ctx):
         for r in RECIPE_NAMES:
             plan.append(({"net": r, "dtype": "float64", "expo": 1.5, "rich": 1}, 1, 1))
             plan.append(({"net": r, "dtype": "complex128", "expo": 0.0, "rich": 1}, 1, 1))
-        for r in ("chain3", "tri", "chain-diag", "loop-diag", "copy", "hyper-diag", "outbond-diag", "multibond", "size1", "oversized", "chain-column", "hyper3-out"):
+        for r in ("chain3", "tri", "chain-diag", "loop-diag", "copy", "hyper-diag", "outbond-diag", "multibond", "size1", "oversized", "chain-column", "hyper3-out", "multibond-diag", "outer-structured"):
             plan.append(({"net": r, "dtype": "float64", "expo": 1.5, "rich": 0}, 2, 0))
         for s in graph_specs(4, ("all",), ("all2", "mixed"), ("complex128",), (1.5,)):
             plan.append((dict(s, rich=1), 1, 1))
